@@ -252,6 +252,12 @@ class Polyhedron(Shape3D):
 
         old_state = (self._faces, self._equations, self._neighbors)
         self._faces = [np.asarray(list(f)) for f in new_faces]
+        # One plane equation per merged face (that of its first member), so that
+        # subclasses whose sort_faces orders each face about its stored normal
+        # see equations that belong to the new face list.
+        self._equations = np.array(
+            [self._equations[np.flatnonzero(labels == k)[0]] for k in range(len(new_faces))]
+        )
         try:
             self.sort_faces()
         except Exception:
